@@ -14,6 +14,7 @@ import (
 	"pgregory.net/rapid"
 
 	"verif/harness/ev"
+	"verif/harness/refhpack"
 )
 
 // C15 — Huffman coding is the RFC 7541 code: lossless, canonical, strict.
@@ -26,7 +27,7 @@ type c15Case struct {
 
 func c15HasLong(s []byte) bool {
 	for _, b := range s {
-		if refHuffLen[b] > 8 {
+		if refhpack.HuffLen[b] > 8 {
 			return true
 		}
 	}
@@ -42,7 +43,7 @@ func c15Run(c c15Case) Outcome {
 	pre := []byte(c.Pre)
 	switch c.Op {
 	case "enc":
-		want := refHuffEncode(in)
+		want := refhpack.HuffEncode(in)
 		if xn := hpack.AppendHuffmanString(nil, string(in)); !bytes.Equal(xn, want) {
 			return Outcome{Inconcl: "references disagree on encoding"}
 		}
@@ -59,7 +60,7 @@ func c15Run(c c15Case) Outcome {
 		}
 		return Outcome{NonTrivial: c15HasLong(in)}
 	case "dec":
-		want, werr := refHuffDecode(in)
+		want, werr := refhpack.HuffDecode(in)
 		got, gerr := http2.HuffmanDecode(append([]byte(nil), pre...), in)
 		if (werr == nil) != (gerr == nil) {
 			if werr == nil {
@@ -77,7 +78,7 @@ func c15Run(c c15Case) Outcome {
 
 // fast paths used by the enumerations (no hex, no allocation of cases)
 func c15DecFast(in []byte, scratch []byte) (ok bool, nontrivial bool) {
-	want, werr := refHuffDecode(in)
+	want, werr := refhpack.HuffDecode(in)
 	got, gerr := http2.HuffmanDecode(scratch[:0], in)
 	if (werr == nil) != (gerr == nil) {
 		return false, true
@@ -196,7 +197,7 @@ func TestC15(t *testing.T) {
 		// reference cross-check against x/net on a slice of the space
 		for i := 0; i < 1<<16; i++ {
 			in := []byte{byte(i >> 8), byte(i), byte(i * 31)}
-			_, e1 := refHuffDecode(in)
+			_, e1 := refhpack.HuffDecode(in)
 			_, e2 := hpack.HuffmanDecodeToString(in)
 			if (e1 == nil) != (e2 == nil) {
 				t.Fatalf("INCONCLUSIVE: reference decoder and x/net disagree on %x (%v vs %v)", in, e1, e2)
@@ -216,7 +217,7 @@ func TestC15(t *testing.T) {
 	runLane(s, Lane[c15Case]{Name: "strict", Quick: 60000, Thor: 4000000,
 		Gen: func(t *rapid.T) c15Case {
 			b := rapid.SliceOfN(symGen, 0, 40).Draw(t, "s")
-			enc := refHuffEncode(b)
+			enc := refhpack.HuffEncode(b)
 			switch rapid.IntRange(0, 6).Draw(t, "mut") {
 			case 0: // flip a bit in the last byte
 				if len(enc) > 0 {
@@ -226,7 +227,7 @@ func TestC15(t *testing.T) {
 				k := rapid.IntRange(1, 5).Draw(t, "k")
 				enc = append(enc, bytes.Repeat([]byte{0xff}, k)...)
 			case 2: // EOS in the middle
-				tail := refHuffEncode(rapid.SliceOfN(symGen, 0, 8).Draw(t, "t"))
+				tail := refhpack.HuffEncode(rapid.SliceOfN(symGen, 0, 8).Draw(t, "t"))
 				enc = append(append(enc, 0xff, 0xff, 0xff, 0xff), tail...)
 			case 3: // truncate
 				if len(enc) > 0 {
